@@ -612,6 +612,22 @@ func main() {
 			addMap(runMap(sender, ops, mapBudgetBig), sets[mapSet0+i%nMapSets], bs...)
 		}
 	}
+	// one long-lived recorder producing more than 256 (every third case: more than 512)
+	// feedback packets with many small builds (genmanybuilds.go): the 8-bit feedback packet
+	// counter goes 254, 255, 0, 1 between builds or inside one split build
+	nmb := o.Scale(3, 24)
+	if o.N > 0 {
+		nmb = 1
+	}
+	for i := 0; i < nmb; i++ {
+		cur = 1 + (i*3+1)%8
+		target := 257 + r.Intn(40)
+		if i%3 == 2 {
+			target = 513 + r.Intn(30)
+		}
+		ops, bs := genManyBuilds(r, target, i%2 == 0)
+		add(run(uint32(r.Intn(1<<16)), ops), bs...) //nolint:gosec
+	}
 	nl := o.Scale(0, 2)
 	if o.N > 0 {
 		nl = 0
